@@ -53,13 +53,19 @@ func Dot(spec *Spec, w io.WriteCloser, fromNode, toNode string) error {
   edge [fontsize = "12"]
 `)
 
-	// id quotes a node name that isn't the name of a node in the
-	// spec (a missing, empty or variable branch target).
+	// id quotes a node name.  A name can have any content
+	// ("test-1", "two words"), and so can a missing, empty or
+	// variable branch target.
 	id := func(name string) string {
-		if _, have := nodes[name]; have {
-			return name
-		}
 		return fmt.Sprintf("%q", name)
+	}
+
+	// esc makes text safe for an HTML-like label.
+	esc := func(s string) string {
+		s = strings.Replace(s, "&", `&amp;`, -1)
+		s = strings.Replace(s, "<", `&lt;`, -1)
+		s = strings.Replace(s, ">", `&gt;`, -1)
+		return s
 	}
 
 	seen := make(map[string]bool)
@@ -79,7 +85,7 @@ func Dot(spec *Spec, w io.WriteCloser, fromNode, toNode string) error {
 			return nil
 		}
 		seen[name] = true
-		label := name
+		label := esc(name)
 		if n.Doc != "" {
 			doc := n.Doc
 			if 40 < len(doc) {
@@ -131,7 +137,7 @@ func Dot(spec *Spec, w io.WriteCloser, fromNode, toNode string) error {
 			style += ",dashed"
 		}
 		fmt.Fprintf(w, "  %s [shape=\"%s\", style=\"%s\", color=\"%s\", fillcolor=\"%s\", label=<%s> ]\n",
-			name, shape, style, color, fillcolor, label)
+			id(name), shape, style, color, fillcolor, label)
 
 		return nil
 	}
@@ -163,7 +169,7 @@ func Dot(spec *Spec, w io.WriteCloser, fromNode, toNode string) error {
 				if err != nil {
 					js = []byte(err.Error())
 				}
-				label = string(js)
+				label = esc(string(js))
 				label = strings.Replace(label, "\n", `<BR ALIGN="LEFT"/>`, -1)
 			}
 			label += `<BR ALIGN="LEFT"/>`
@@ -211,7 +217,7 @@ func Dot(spec *Spec, w io.WriteCloser, fromNode, toNode string) error {
 			// label = fmt.Sprintf("[%d/%d] %s", i+1, len(n.Branches.Branches), label)
 			label = fmt.Sprintf("%d/%d %s", i+1, len(n.Branches.Branches), label)
 			fmt.Fprintf(w, "  %s -> %s [ color=\"%s\" label = <%s> ]\n",
-				name, id(b.Target), color, label)
+				id(name), id(b.Target), color, label)
 		}
 
 		return nil
